@@ -171,9 +171,13 @@ def classify(expr, number: str, digits: str, env: dict, sign: str, notes: dict):
                 mode = None
                 cands = list(e.args[1:2]) + [kw.value for kw in e.keywords if kw.arg == 'rounding']
                 for c in cands:
+                    while isinstance(c, ast.Name) and c.id in env:
+                        c = env[c.id]
                     nm = ast.unparse(c).split('.')[-1]
                     if nm in DECIMAL_MODES:
                         mode = DECIMAL_MODES[nm]
+                    elif not (isinstance(c, ast.Call)):
+                        raise Unmodelled(f'rounding mode `{ast.unparse(c)[:30]}`')
                 if mode is None:
                     mode = 'half-even'            # the default context rounds half to even
                     notes['default-rounding'] = ast.unparse(e)[:60]
@@ -298,6 +302,24 @@ def r1_r2_r5(run: Run, rt):
                 raise AnalysisError('C16.R1', f'{h}: expected (number, num_digits)')
             number, digits = ps
             env = _local_env(fn)
+            # a helper that only delegates (`return self._shared(number, num_digits, MODE)`) is analysed through the shared
+            # function, with the extra arguments (the rounding mode) bound to what this helper passes
+            rets0 = [r for r in ast.walk(fn) if isinstance(r, ast.Return) and r.value is not None]
+            if len(rets0) == 1 and isinstance(rets0[0].value, ast.Call) and isinstance(rets0[0].value.func, ast.Attribute) and \
+                    isinstance(rets0[0].value.func.value, ast.Name) and rets0[0].value.func.value.id == 'self' and \
+                    rets0[0].value.func.attr in cp.members and not rets0[0].value.keywords:
+                call0 = rets0[0].value
+                callee = cp.members[call0.func.attr]
+                cps = [a.arg for a in callee.args.args if a.arg not in ('self', 'cls')]
+                amap = dict(zip(cps, call0.args))
+                num2 = [k for k, a in amap.items() if isinstance(a, ast.Name) and a.id == number]
+                dig2 = [k for k, a in amap.items() if isinstance(a, ast.Name) and a.id == digits]
+                if len(num2) == 1 and len(dig2) == 1 and len(amap) == len(cps):
+                    env = _local_env(callee)
+                    for k, a in amap.items():
+                        if k not in (num2[0], dig2[0]):
+                            env[k] = a
+                    fn, number, digits = callee, num2[0], dig2[0]
             paths = _return_paths(fn)
             if not paths:
                 raise AnalysisError('C16.R1', f'{h} has no return')
